@@ -46,6 +46,8 @@ func checkC14(c *Ctx) {
 	c.Expect("C14-R17", 1)
 	c.Rule("C14-R18", "NAME-truecolor for a known base gets the 24-bit strings whichever member of the family the base is found under: every candidate lookup in the -truecolor branch is tested and raises the direct-colour flag on the found edge")
 	c.Expect("C14-R18", 1)
+	c.Rule("C14-R19", "every alias resolves like its name, synthesized variants included: whatever package-level table AddTerminfo files an entry in, it files it under the name and under each alias (a family set keyed by primary names only refuses stterm-truecolor, vt200-truecolor, …)")
+	c.Expect("C14-R19", 1)
 	c.Rule("C14-R14", "what a lookup returns does not depend on earlier lookups: nothing hands the result of terminfo.LookupTerminfo back to AddTerminfo (it may be a private amended copy carrying the base entry's name; only entries loaded from infocmp are registered by the wrapper)")
 	c.Expect("C14-R14", 1)
 	c.Rule("C14-R13", "NAME-256color for a known base always synthesises the standard strings: the block that sets Colors = 256 depends on the name only, not on the contents of the base entry")
@@ -89,6 +91,7 @@ func checkC14(c *Ctx) {
 		checkSynthTruecolorGuard(c, p, "C14-R16")
 		checkLookupLeavesPackageStateAlone(c, p, "C14-R17")
 		checkFoundBaseSwitchesDirectColourOn(c, p, "C14-R18")
+		checkRegistriesFiledUnderAliases(c, p, "C14-R19")
 		c14Disable(c, p)
 		c14FoundBaseIsUsed(c, p)
 		checkVetoLast(c, p, "C14-R10")
